@@ -178,7 +178,7 @@ impl Outcome {
             *self.classes.entry(k).or_default() += v;
         }
         for s in other.samples {
-            if self.samples.len() < 6 {
+            if self.samples.len() < 10 {
                 self.samples.push(s);
             }
         }
@@ -284,6 +284,7 @@ where
     for r in results {
         total.merge(r);
     }
+    total.samples.truncate(2);
     total.legs.push(format!("{}:{}", engine.name(), leg));
     total
 }
@@ -468,6 +469,7 @@ pub fn run_listed<E: Engine>(ctx: &Ctx, engine: &E, leg: &str, cases: Vec<E::Cas
     for r in results {
         total.merge(r);
     }
+    total.samples.truncate(2);
     total.legs.push(format!("{}:{}", engine.name(), leg));
     total
 }
